@@ -171,3 +171,377 @@ Qed.
 Lemma wrong_nargs_rejected tbl colvars biases words k e ex :
   runs tbl colvars biases words k e ex -> nargs_ok k e (Z.of_nat (List.length words)).
 Proof. intros H; destruct H; auto. Qed.
+
+(* ================= object class of a command; one name per command ================= *)
+Lemma strip_some p s r : strip p s = Some r <-> s = p ++ r.
+Proof.
+  revert s. induction p as [|a p IH]; intros s; cbn [strip append].
+  - split; [intros H; injection H as <-; reflexivity | intros ->; reflexivity].
+  - destruct s as [|b s]; [split; discriminate|].
+    destruct (Ascii.eqb a b) eqn:E.
+    + apply Ascii.eqb_eq in E; subst b. rewrite IH. split; [intros ->; reflexivity | intros H; injection H as ->; reflexivity].
+    + apply Ascii.eqb_neq in E. split; [discriminate | intros H; injection H as H1 _; congruence].
+Qed.
+
+Lemma strip_app p r : strip p (p ++ r) = Some r.
+Proof. apply strip_some. reflexivity. Qed.
+
+Lemma entry_class_name e k r : entry_class e = Some (k, r) -> e_name e = prefix_of k ++ r.
+Proof.
+  unfold entry_class.
+  destruct (strip "cv_" (e_name e)) as [r1|] eqn:E1.
+  - intros H; injection H as <- <-. apply strip_some. exact E1.
+  - destruct (strip "colvar_" (e_name e)) as [r2|] eqn:E2.
+    + intros H; injection H as <- <-. apply strip_some. exact E2.
+    + destruct (strip "bias_" (e_name e)) as [r3|] eqn:E3; [|discriminate].
+      intros H; injection H as <- <-. apply strip_some. exact E3.
+Qed.
+
+(* the three prefixes cannot be confused: a function name determines the object class and the command word *)
+Lemma prefix_inj k1 k2 s1 s2 : prefix_of k1 ++ s1 = prefix_of k2 ++ s2 -> k1 = k2 /\ s1 = s2.
+Proof.
+  destruct k1, k2; cbn [prefix_of append]; intros H; try discriminate;
+    (split; [reflexivity|]); repeat (injection H as H); exact H.
+Qed.
+
+Lemma entry_class_of_name e k r : e_name e = prefix_of k ++ r -> entry_class e = Some (k, r).
+Proof.
+  intros H. unfold entry_class. rewrite H.
+  destruct k; cbn [prefix_of].
+  - rewrite strip_app. reflexivity.
+  - replace (strip "cv_" ("colvar_" ++ r)) with (@None string) by reflexivity.
+    rewrite strip_app. reflexivity.
+  - replace (strip "cv_" ("bias_" ++ r)) with (@None string) by reflexivity.
+    replace (strip "colvar_" ("bias_" ++ r)) with (@None string) by reflexivity.
+    rewrite strip_app. reflexivity.
+Qed.
+
+(* the word of the command line that selects the command *)
+Definition cmd_word (k : objkind) (words : list string) : string :=
+  match k with OModule => nth 1 words "" | _ => nth 3 words "" end.
+
+Lemma runs_name tbl cvs bs words k e ex :
+  runs tbl cvs bs words k e ex -> e_name e = prefix_of k ++ cmd_word k words.
+Proof.
+  intros H. destruct H as [main cmd rest e _ _ Hl _ | main name sub rest e _ Hl _ | main name sub rest e _ Hl _];
+    apply lookup_some in Hl; destruct Hl as [_ Hl]; rewrite Hl; reflexivity.
+Qed.
+
+Lemma runs_in tbl cvs bs words k e ex : runs tbl cvs bs words k e ex -> In e tbl.
+Proof.
+  intros H. destruct H as [main cmd rest e _ _ Hl _ | main name sub rest e _ Hl _ | main name sub rest e _ Hl _];
+    apply lookup_some in Hl; destruct Hl as [Hl _]; exact Hl.
+Qed.
+
+(* a command is run under exactly one object class and one command word, whatever the objects defined *)
+Lemma one_name_per_command tbl cvs1 bs1 cvs2 bs2 w1 w2 k1 k2 e ex1 ex2 :
+  dispatch tbl cvs1 bs1 w1 = Run k1 e ex1 -> dispatch tbl cvs2 bs2 w2 = Run k2 e ex2 ->
+  k1 = k2 /\ cmd_word k1 w1 = cmd_word k2 w2 /\ entry_class e = Some (k1, cmd_word k1 w1).
+Proof.
+  intros H1 H2. apply dispatch_run_iff in H1. apply dispatch_run_iff in H2.
+  apply runs_name in H1. apply runs_name in H2.
+  assert (H := H1). rewrite H2 in H. apply prefix_inj in H. destruct H as [Hk Hw].
+  split; [symmetry; exact Hk|]. split; [symmetry; exact Hw|]. apply entry_class_of_name. exact H1.
+Qed.
+
+(* the two prefix pseudo-commands are never run by the dispatcher *)
+Lemma pseudo_never_run tbl cvs bs words k e ex :
+  dispatch tbl cvs bs words = Run k e ex -> is_pseudo e = false.
+Proof.
+  intros H. apply dispatch_run_iff in H.
+  assert (Hn := runs_name _ _ _ _ _ _ _ H).
+  unfold is_pseudo. apply orb_false_iff. split; apply String.eqb_neq; intros Heq; rewrite Heq in Hn.
+  - change "cv_colvar" with (prefix_of OModule ++ "colvar") in Hn. apply prefix_inj in Hn. destruct Hn as [<- Hw].
+    inversion H as [main cmd rest e0 Hc _ _ _ Hwd | |]; subst. cbn [cmd_word nth] in Hw. congruence.
+  - change "cv_bias" with (prefix_of OModule ++ "bias") in Hn. apply prefix_inj in Hn. destruct Hn as [<- Hw].
+    inversion H as [main cmd rest e0 _ Hb _ _ Hwd | |]; subst. cbn [cmd_word nth] in Hw. congruence.
+Qed.
+
+Lemma entry_wf_bounds e : entry_wf e = true -> 0 <= e_min e <= e_max e.
+Proof.
+  unfold entry_wf. intros H. apply andb_true_iff in H as [H _]. apply andb_true_iff in H as [H1 H2].
+  apply Z.leb_le in H1. apply Z.leb_le in H2. lia.
+Qed.
+
+Lemma table_wf_entry tbl e : table_wf tbl = true -> In e tbl -> entry_wf e = true.
+Proof.
+  unfold table_wf. intros H Hin. apply andb_true_iff in H as [H _]. rewrite forallb_forall in H. apply H. exact Hin.
+Qed.
+
+Lemma length_witness k sub name e : 0 <= e_min e ->
+  Z.of_nat (List.length (witness_words k sub name e)) = shift_of k + e_min e.
+Proof.
+  intros H. destruct k; cbn [witness_words List.length shift_of]; rewrite repeat_length; lia.
+Qed.
+
+(* every command of a well-formed table other than the two pseudo-commands is run by some command line *)
+Lemma every_command_runs tbl cvs bs e k sub name :
+  table_wf tbl = true -> In e tbl -> is_pseudo e = false -> entry_class e = Some (k, sub) ->
+  (k = OColvar -> In name cvs) -> (k = OBias -> In name bs) ->
+  dispatch tbl cvs bs (witness_words k sub name e) = Run k e true.
+Proof.
+  intros Hwf Hin Hps Hcl Hc Hb.
+  assert (Hb0 := entry_wf_bounds e (table_wf_entry _ _ Hwf Hin)).
+  assert (Hl := lookup_wf _ _ Hwf Hin).
+  assert (Hn := entry_class_name _ _ _ Hcl).
+  apply dispatch_run_iff.
+  assert (Hlen := length_witness k sub name e (proj1 Hb0)).
+  destruct k; cbn [witness_words prefix_of] in *.
+  - apply runs_module.
+    + intros ->. unfold is_pseudo in Hps. rewrite Hn in Hps. cbn in Hps. discriminate.
+    + intros ->. unfold is_pseudo in Hps. rewrite Hn in Hps. cbn in Hps. discriminate.
+    + rewrite <- Hn. exact Hl.
+    + unfold nargs_ok. rewrite Hlen. lia.
+  - assert (Hm : mem_str name cvs = true) by (apply mem_str_in; apply Hc; reflexivity).
+    assert (R : runs tbl cvs bs ("cv" :: "colvar" :: name :: sub :: repeat "" (Z.to_nat (e_min e))) OColvar e (mem_str name cvs)).
+    { apply runs_colvar.
+      + left. apply Hc. reflexivity.
+      + rewrite <- Hn. exact Hl.
+      + unfold nargs_ok. rewrite Hlen. lia. }
+    rewrite Hm in R. exact R.
+  - assert (Hm : mem_str name bs = true) by (apply mem_str_in; apply Hb; reflexivity).
+    assert (R : runs tbl cvs bs ("cv" :: "bias" :: name :: sub :: repeat "" (Z.to_nat (e_min e))) OBias e (mem_str name bs)).
+    { apply runs_bias.
+      + left. apply Hb. reflexivity.
+      + rewrite <- Hn. exact Hl.
+      + unfold nargs_ok. rewrite Hlen. lia. }
+    rewrite Hm in R. exact R.
+Qed.
+
+(* ================= effect of commands on the object sets ================= *)
+Definition state_ok (st : mstate) : Prop :=
+  NoDup (st_cvs st) /\ NoDup (bias_names st) /\
+  (forall b c, In b (st_biases st) -> In c (snd b) -> In c (st_cvs st)).
+
+Lemma NoDup_nodup_names l : NoDup l -> nodup_names l = true.
+Proof.
+  induction l as [|a r IH]; intros H; [reflexivity|].
+  inversion H as [|? ? Hnot Hnd]; subst. cbn [nodup_names]. rewrite (IH Hnd), andb_true_r.
+  destruct (mem_str a r) eqn:E; [|reflexivity]. apply mem_str_in in E. contradiction.
+Qed.
+
+Lemma mem_str_false s l : mem_str s l = false <-> ~ In s l.
+Proof.
+  split.
+  - intros H Hin. apply mem_str_in in Hin. congruence.
+  - intros H. destruct (mem_str s l) eqn:E; [|reflexivity]. apply mem_str_in in E. contradiction.
+Qed.
+
+Lemma state_wf_ok st : state_wf st = true <-> state_ok st.
+Proof.
+  unfold state_wf, state_ok. rewrite !andb_true_iff. split.
+  - intros [[H1 H2] H3]. repeat split.
+    + apply nodup_names_NoDup; exact H1.
+    + apply nodup_names_NoDup; exact H2.
+    + intros b c Hb Hc. rewrite forallb_forall in H3. specialize (H3 b Hb). rewrite forallb_forall in H3.
+      apply mem_str_in. apply H3. exact Hc.
+  - intros (H1 & H2 & H3). repeat split.
+    + apply NoDup_nodup_names; exact H1.
+    + apply NoDup_nodup_names; exact H2.
+    + apply forallb_forall. intros b Hb. apply forallb_forall. intros c Hc. apply mem_str_in. apply (H3 b c Hb Hc).
+Qed.
+
+Lemma NoDup_map_filter {A B} (f : A -> B) (p : A -> bool) l : NoDup (map f l) -> NoDup (map f (filter p l)).
+Proof.
+  induction l as [|a r IH]; cbn [map filter]; intros H; [constructor|].
+  inversion H as [|? ? Hnot Hnd]; subst.
+  destruct (p a); cbn [map]; [|apply IH; exact Hnd].
+  constructor; [|apply IH; exact Hnd].
+  intros Hin. apply Hnot. apply in_map_iff in Hin. destruct Hin as (x & Hx & Hin).
+  apply filter_In in Hin. apply in_map_iff. exists x. split; [exact Hx | apply Hin].
+Qed.
+
+Lemma del_cv_ok n st : state_ok st -> state_ok (del_cv n st).
+Proof.
+  intros (H1 & H2 & H3). unfold state_ok, del_cv, bias_names. cbn [st_cvs st_biases]. repeat split.
+  - apply NoDup_filter. exact H1.
+  - apply NoDup_map_filter. exact H2.
+  - intros b c Hb Hc. apply filter_In in Hb. destruct Hb as [Hb Hm]. apply filter_In. split.
+    + apply (H3 b c Hb Hc).
+    + apply negb_true_iff in Hm. apply mem_str_false in Hm. apply negb_true_iff. apply String.eqb_neq.
+      intros ->. apply Hm. exact Hc.
+Qed.
+
+Lemma del_bias_ok n st : state_ok st -> state_ok (del_bias n st).
+Proof.
+  intros (H1 & H2 & H3). unfold state_ok, del_bias, bias_names. cbn [st_cvs st_biases]. repeat split.
+  - exact H1.
+  - apply NoDup_map_filter. exact H2.
+  - intros b c Hb Hc. apply filter_In in Hb. destruct Hb as [Hb _]. apply (H3 b c Hb Hc).
+Qed.
+
+Lemma NoDup_snoc {A} (l : list A) a : NoDup l -> ~ In a l -> NoDup (l ++ [a]).
+Proof.
+  intros H Hn. induction l as [|x r IH]; cbn [app]; [constructor; [intros []|constructor]|].
+  inversion H as [|? ? Hnot Hnd]; subst. constructor.
+  - intros Hin. apply in_app_or in Hin. destruct Hin as [Hin|[->|[]]]; [contradiction|]. apply Hn. left. reflexivity.
+  - apply IH; [exact Hnd|]. intros Hin. apply Hn. right. exact Hin.
+Qed.
+
+Lemma add_decl_ok st d st' : state_ok st -> add_decl st d = Some st' -> state_ok st'.
+Proof.
+  intros (H1 & H2 & H3). destruct d as [n|n cs]; cbn [add_decl].
+  - destruct (mem_str n (st_cvs st)) eqn:E; [discriminate|]. intros H; injection H as <-.
+    apply mem_str_false in E. unfold state_ok, bias_names. cbn [st_cvs st_biases]. repeat split.
+    + apply NoDup_snoc; assumption.
+    + exact H2.
+    + intros b c Hb Hc. apply in_or_app. left. apply (H3 b c Hb Hc).
+  - destruct (mem_str n (bias_names st)) eqn:E; [discriminate|].
+    destruct (forallb (fun c => mem_str c (st_cvs st)) cs) eqn:F; [|discriminate]. intros H; injection H as <-.
+    apply mem_str_false in E. unfold state_ok, bias_names in *. cbn [st_cvs st_biases]. repeat split.
+    + exact H1.
+    + rewrite map_app. cbn [map fst]. apply NoDup_snoc; assumption.
+    + intros b c Hb Hc. apply in_app_or in Hb. destruct Hb as [Hb|[<-|[]]].
+      * apply (H3 b c Hb Hc).
+      * cbn [snd] in Hc. rewrite forallb_forall in F. apply mem_str_in. apply F. exact Hc.
+Qed.
+
+Lemma add_decls_ok ds : forall st, state_ok st -> state_ok (fst (add_decls st ds)).
+Proof.
+  induction ds as [|d r IH]; intros st H; cbn [add_decls]; [exact H|].
+  destruct (add_decl st d) as [st'|] eqn:E; [|exact H].
+  apply IH. apply (add_decl_ok st d st' H E).
+Qed.
+
+Section ExecProofs.
+  Variable tbl : list cmd_entry.
+  Variable parse_conf : string -> option (list decl).
+  Variable read_file : string -> option string.
+
+  Lemma apply_conf_ok st text : state_ok st -> state_ok (fst (apply_conf parse_conf st text)).
+  Proof.
+    intros H. unfold apply_conf. destruct (parse_conf text) as [ds|]; [|exact H].
+    assert (H' := add_decls_ok ds st H). destruct (add_decls st ds) as [st' ok]. exact H'.
+  Qed.
+
+  Lemma body_ok e words st : state_ok st -> state_ok (fst (body parse_conf read_file e words st)).
+  Proof.
+    intros H. unfold body.
+    destruct (String.eqb (e_name e) "colvar_delete"); [apply del_cv_ok; exact H|].
+    destruct (String.eqb (e_name e) "bias_delete"); [apply del_bias_ok; exact H|].
+    destruct (String.eqb (e_name e) "cv_reset"); [repeat split; try constructor; intros b c []|].
+    destruct (String.eqb (e_name e) "cv_config"); [apply apply_conf_ok; exact H|].
+    destruct (String.eqb (e_name e) "cv_configfile"); [|exact H].
+    destruct (read_file (nth 2 words "")) as [t|]; [apply apply_conf_ok; exact H | exact H].
+  Qed.
+
+  (* a rejected call (any dispatcher error) leaves the state alone and is classified as an error *)
+  Lemma rejected_unchanged st words :
+    is_error (dispatch tbl (st_cvs st) (bias_names st) words) = true ->
+    exec tbl parse_conf read_file st words = (st, dispatch tbl (st_cvs st) (bias_names st) words, BErr).
+  Proof.
+    unfold exec. destruct (dispatch tbl (st_cvs st) (bias_names st) words); cbn [is_error]; try reflexivity. discriminate.
+  Qed.
+
+  Lemma exec_ok st words : state_ok st -> state_ok (fst (fst (exec tbl parse_conf read_file st words))).
+  Proof.
+    intros H. unfold exec. destruct (dispatch tbl (st_cvs st) (bias_names st) words) as [| | | | | |k e ex]; try exact H.
+    assert (H' := body_ok e words st H). destruct (body parse_conf read_file e words st) as [st' c]. exact H'.
+  Qed.
+
+  Lemma do_event_ok st ev : state_ok st -> state_ok (do_event tbl parse_conf read_file st ev).
+  Proof.
+    intros H. destruct ev as [w| |t]; cbn [do_event]; [apply exec_ok; exact H | exact H | apply apply_conf_ok; exact H].
+  Qed.
+
+  (* after ANY history of script calls (well formed or not), steps and engine-side configurations, the object
+     sets the dispatcher uses are consistent: names unique, every bias refers to existing variables *)
+  Lemma run_events_ok evs : forall st, state_ok st -> state_ok (run_events tbl parse_conf read_file st evs).
+  Proof.
+    unfold run_events. induction evs as [|ev r IH]; intros st H; cbn [fold_left]; [exact H|].
+    apply IH. apply do_event_ok. exact H.
+  Qed.
+
+  (* and the dispatcher still answers every call: a result class and a state *)
+  Lemma run_events_then_total evs st words :
+    state_ok st ->
+    let st' := run_events tbl parse_conf read_file st evs in
+    state_ok st' /\
+    ((exists k e ex, dispatch tbl (st_cvs st') (bias_names st') words = Run k e ex) \/
+     (is_error (dispatch tbl (st_cvs st') (bias_names st') words) = true /\
+      exec tbl parse_conf read_file st' words = (st', dispatch tbl (st_cvs st') (bias_names st') words, BErr))).
+  Proof.
+    intros H st'. split; [apply run_events_ok; exact H|].
+    destruct (dispatch tbl (st_cvs st') (bias_names st') words) as [| | | | | |k e ex] eqn:E;
+      try (right; split; [reflexivity | unfold exec; rewrite E; reflexivity]).
+    left. exists k, e, ex. reflexivity.
+  Qed.
+
+  (* configuration through the script = configuration on the engine side, whenever the table has the command
+     with one argument *)
+  Lemma script_config_equiv st main text e :
+    lookup tbl "cv_config" = Some e -> e_name e = "cv_config" -> e_min e = 1 -> e_max e = 1 ->
+    do_event tbl parse_conf read_file st (ECmd [main; "config"; text]) = do_event tbl parse_conf read_file st (EConfig text).
+  Proof.
+    intros Hl Hn Hmin Hmax. cbn [do_event]. unfold exec, dispatch.
+    replace (String.eqb "config" "colvar") with false by reflexivity.
+    replace (String.eqb "config" "bias") with false by reflexivity.
+    cbn [prefix_of]. change ("cv_" ++ "config") with "cv_config". rewrite Hl.
+    unfold check_nargs. cbn [List.length shift_of]. rewrite Hmin, Hmax. cbn [Z.of_nat Z.ltb Z.add Z.compare Pos.of_succ_nat Pos.succ Pos.add Pos.compare Pos.compare_cont].
+    unfold body. rewrite Hn.
+    replace (String.eqb "cv_config" "colvar_delete") with false by reflexivity.
+    replace (String.eqb "cv_config" "bias_delete") with false by reflexivity.
+    replace (String.eqb "cv_config" "cv_reset") with false by reflexivity.
+    replace (String.eqb "cv_config" "cv_config") with true by reflexivity.
+    cbn [nth]. destruct (apply_conf parse_conf st text) as [st' c]. reflexivity.
+  Qed.
+End ExecProofs.
+
+(* what deleting a variable does to the object sets: the variable and exactly the biases that use it disappear *)
+Lemma del_cv_spec n st :
+  (forall c, In c (st_cvs (del_cv n st)) <-> In c (st_cvs st) /\ c <> n) /\
+  (forall b, In b (st_biases (del_cv n st)) <-> In b (st_biases st) /\ ~ In n (snd b)).
+Proof.
+  unfold del_cv. cbn [st_cvs st_biases]. split; intros x; rewrite filter_In, negb_true_iff.
+  - rewrite String.eqb_neq. reflexivity.
+  - rewrite mem_str_false. reflexivity.
+Qed.
+
+Lemma del_bias_spec n st :
+  st_cvs (del_bias n st) = st_cvs st /\
+  (forall b, In b (st_biases (del_bias n st)) <-> In b (st_biases st) /\ fst b <> n).
+Proof.
+  unfold del_bias. cbn [st_cvs st_biases]. split; [reflexivity|]. intros x. rewrite filter_In, negb_true_iff, String.eqb_neq. reflexivity.
+Qed.
+
+(* ================= statements used by Properties_C20.v ================= *)
+Lemma dispatch_total tbl colvars biases words :
+  (exists k e ex, dispatch tbl colvars biases words = Run k e ex /\ runs tbl colvars biases words k e ex) \/
+  (is_error (dispatch tbl colvars biases words) = true /\ ~ exists k e ex, runs tbl colvars biases words k e ex).
+Proof.
+  destruct (dispatch tbl colvars biases words) as [| | | | | |k e ex] eqn:E;
+    try (right; split; [reflexivity | apply dispatch_error_iff; rewrite E; reflexivity]).
+  left. exists k, e, ex. split; [reflexivity | apply dispatch_run_iff; exact E].
+Qed.
+
+Lemma unknown_command_rejected tbl colvars biases main cmd name sub rest :
+  (cmd <> "colvar" -> cmd <> "bias" -> ~ In ("cv_" ++ cmd) (map e_name tbl) ->
+     is_error (dispatch tbl colvars biases (main :: cmd :: rest)) = true) /\
+  (~ In ("colvar_" ++ sub) (map e_name tbl) ->
+     is_error (dispatch tbl colvars biases (main :: "colvar" :: name :: sub :: rest)) = true).
+Proof. split; [apply unknown_module_command_rejected | apply unknown_object_command_rejected]. Qed.
+
+Lemma wrong_argument_count_rejected tbl colvars biases words k e ex :
+  dispatch tbl colvars biases words = Run k e ex ->
+  shift_of k + e_min e <= Z.of_nat (List.length words) <= shift_of k + e_max e.
+Proof. intros H. apply dispatch_run_iff in H. exact (wrong_nargs_rejected _ _ _ _ _ _ _ H). Qed.
+
+Lemma usable_after_any_history tbl parse_conf read_file evs st words :
+  state_wf st = true ->
+  let st' := run_events tbl parse_conf read_file st evs in
+  state_wf st' = true /\
+  ((exists k e ex, dispatch tbl (st_cvs st') (bias_names st') words = Run k e ex) \/
+   (is_error (dispatch tbl (st_cvs st') (bias_names st') words) = true /\
+    exec tbl parse_conf read_file st' words = (st', dispatch tbl (st_cvs st') (bias_names st') words, BErr))).
+Proof.
+  intros H st'.
+  apply state_wf_ok in H. destruct (run_events_then_total tbl parse_conf read_file evs st words H) as [H1 H2].
+  split; [apply state_wf_ok; exact H1 | exact H2].
+Qed.
+
+Lemma delete_effect n st :
+  ((forall c, In c (st_cvs (del_cv n st)) <-> In c (st_cvs st) /\ c <> n) /\
+   (forall b, In b (st_biases (del_cv n st)) <-> In b (st_biases st) /\ ~ In n (snd b))) /\
+  (st_cvs (del_bias n st) = st_cvs st /\
+   (forall b, In b (st_biases (del_bias n st)) <-> In b (st_biases st) /\ fst b <> n)).
+Proof. split; [apply del_cv_spec | apply del_bias_spec]. Qed.
